@@ -1058,4 +1058,87 @@ theorem findReaders_spec {K : KeySetOps B} (fs : Nat → Option Bytes) (levels :
       rfl
   exact this _ (fun f hf => ((mem_findFiles levels key f).mp hf).1)
 
+/-- `FindReaders` when some tables cannot be opened: an error as soon as one of the files found is
+among them, otherwise every file found -/
+theorem findReaders_failing {K : KeySetOps B} (fs : Nat → Option Bytes) (openFails : Nat → Bool)
+    (levels : List (List FileMeta)) (ent : FileMeta → List (Nat × Bytes)) (key : Nat)
+    (hok : VersionOK K fs levels.flatten ent) :
+    findReaders K (failing fs openFails) levels key =
+      if (findFiles levels key).any (fun f => openFails f.fileNumber) then none
+      else some ((findFiles levels key).map (·.fileNumber)) := by
+  unfold findReaders
+  have : ∀ l : List FileMeta, (∀ f ∈ l, f ∈ levels.flatten) →
+      l.mapM (fun f => match failing fs openFails f.fileNumber with
+        | none => none
+        | some bytes => (Reader.open K bytes).map (fun _ => f.fileNumber)) =
+      if l.any (fun f => openFails f.fileNumber) then none else some (l.map (·.fileNumber)) := by
+    intro l
+    induction l with
+    | nil => intro _; rfl
+    | cons f t ih =>
+      intro hl
+      have iht := ih (fun g hg => hl g (List.mem_cons_of_mem _ hg))
+      by_cases hf : openFails f.fileNumber = true
+      · simp [List.mapM_cons, failing, hf]
+      · obtain ⟨bytes, r, h1, h2, _, _⟩ := hok f (hl f (List.mem_cons_self))
+        have hf' : openFails f.fileNumber = false := by simpa using hf
+        simp only [List.mapM_cons, failing, hf', Bool.false_eq_true, if_false, h1, h2, Option.map_some,
+          List.any_cons, Bool.false_or, List.map_cons]
+        simp only [failing] at iht
+        rw [iht]
+        split <;> rfl
+  exact this _ (fun f hf => ((mem_findFiles levels key f).mp hf).1)
+
+/-- `Load` when some tables cannot be opened: an error as soon as one of the files found is among
+them, otherwise the value from every file holding the key -/
+theorem loadFiles_failing {K : KeySetOps B} (hK : K.Lawful) (fs : Nat → Option Bytes) (openFails : Nat → Bool)
+    (ent : FileMeta → List (Nat × Bytes)) (key : Nat) : ∀ (files : List FileMeta),
+    VersionOK K fs files ent →
+    loadFiles K (failing fs openFails) key (files.filter (fun f => decide (key ≥ f.minKey ∧ key ≤ f.maxKey))) =
+      if (files.filter (fun f => decide (key ≥ f.minKey ∧ key ≤ f.maxKey))).any (fun f => openFails f.fileNumber)
+      then none else some (files.filterMap (fun f => lookup key (ent f))) := by
+  intro files
+  induction files with
+  | nil => intro _; rfl
+  | cons f rest ih =>
+    intro hok
+    have hrest : VersionOK K fs rest ent := fun g hg => hok g (List.mem_cons_of_mem _ hg)
+    have ihr := ih hrest
+    obtain ⟨bytes, r, hfs, hopen, hrepr, hrange⟩ := hok f (List.mem_cons_self)
+    by_cases hin : key ≥ f.minKey ∧ key ≤ f.maxKey
+    · rw [List.filter_cons_of_pos (by simpa using hin)]
+      by_cases hf : openFails f.fileNumber = true
+      · simp [loadFiles, failing, hf]
+      · have hf' : openFails f.fileNumber = false := by simpa using hf
+        simp only [loadFiles, failing, hf', Bool.false_eq_true, if_false, hfs, hopen, List.any_cons, Bool.false_or]
+        cases hfind : (ent f).find? (fun e => e.1 = key) with
+        | none =>
+          have hab : r.get K key = .absent := by
+            apply get_absent hK hrepr
+            intro e he hek
+            have := List.find?_eq_none.mp hfind e he
+            simp [hek] at this
+          simp only [hab, ihr, List.filterMap_cons, lookup, hfind, Option.map_none]
+        | some e =>
+          have hek : e.1 = key := by simpa using List.find?_some hfind
+          have hmem : e ∈ ent f := List.mem_of_find?_eq_some hfind
+          have hpr : r.get K key = .ok e.2 := by rw [← hek]; exact get_present hK hrepr e hmem
+          simp only [hpr, ihr, List.filterMap_cons, lookup, hfind, Option.map_some]
+          by_cases ha : ((rest.filter (fun f => decide (key ≥ f.minKey ∧ key ≤ f.maxKey))).any
+              (fun f => openFails f.fileNumber)) = true
+          · rw [if_pos ha, if_pos ha]
+          · rw [if_neg ha, if_neg ha]
+    · rw [List.filter_cons_of_neg (by simpa using hin)]
+      have hnone : lookup key (ent f) = none := by
+        unfold lookup
+        cases hfind : (ent f).find? (fun e => e.1 = key) with
+        | none => rfl
+        | some e =>
+          exfalso
+          have hek : e.1 = key := by simpa using List.find?_some hfind
+          have := hrange e (List.mem_of_find?_eq_some hfind)
+          rw [hek] at this; exact hin this
+      simp only [List.filterMap_cons, hnone]
+      exact ihr
+
 end LinVerif.Table
